@@ -319,8 +319,15 @@ def _section(ctx, p, name, first):
             dv = to_poly(dst[0][3], atoms)
             sv = to_poly(sst[0][3], atoms)
             okd = dv == (one - A * A) * S(sfield, t - one) + A * S(dfield, t)
-            oks = sv == S(dfield, t) * B(1)
             order = _dom(b, dst[0][0], sst[0][0]) and (dst[0][0] != sst[0][0] or dst[0][1] < sst[0][1])
+            # the state is b[1] times the *new* delay value: either re-read after the delay store, or
+            # the stored value kept in a temporary (then nothing re-reads the element in between, and
+            # the tree of the state value is the delay update itself)
+            reread = order and _reads_between(b, eb, (dst[0][0], dst[0][1]), (sst[0][0], sst[0][1]), ("idx", ("field", ("arg", 1, b.local_name(1)), dfield), None), lambda e: e[0] == "idx" and e[1][0] == "field" and is_self(e[1][1]) and e[1][2] == dfield and syms.poly(e[2]) == t)
+            if reread or not order:
+                oks = sv == S(dfield, t) * B(1)
+            else:
+                oks = okd and sv == dv * B(1)
             if okd and oks and order:
                 ok_state = True
                 ctx.ok(RULE, "%s: %s[i] <- (1-a^2) %s[i-1] + a %s[i]; then %s[i] <- %s[i] * b[1]" % (name, dfield, sfield, dfield, sfield, dfield), dst[0][4])
@@ -616,36 +623,68 @@ def r4_fir(ctx, p):
         else:
             ctx.fail(RULE, b.path, "all-pass sweep", "the sweep reads the already updated %s: the pair (d_i, r) has to be computed from the old values" % " and ".join(sorted(set(late))), sloc)
     # y
+    from ..loops import enumerate_as_range
+    from ..expr import resolve_upvars
     r0 = eb.local(0)
     oky = False
     why = show(r0)[:80]
+
+    def summand(term, idx_poly_of):
+        """(ok, why): term = d[i]*b[i] with the same index on both"""
+        fs = [term[2], term[3]] if term[0] == "bin" and term[1] == "Mul" else []
+        dl = [f for f in fs if f[0] == "idx" and is_line(f[1])]
+        cc = [f for f in fs if f[0] == "idx" and is_c(f[1])]
+        if len(dl) == 1 and len(cc) == 1:
+            a_, c_ = idx_poly_of(dl[0][2]), idx_poly_of(cc[0][2])
+            if a_ is not None and a_ == c_:
+                return a_, dl[0][1], None
+            return None, None, "the delay element and the coefficient are indexed differently: %s" % show(term)[:100]
+        return None, None, "the summand is %s" % show(term)[:100]
     if r0[0] == "var" and isinstance(r0[1], int):
         defs = [d for d in b.defs().get(r0[1], []) if not b.is_cleanup(d[0])]
-        exprs = eb.def_exprs(r0[1])
+        exprs = [enumerate_as_range(x) for x in eb.def_exprs(r0[1])]
         init = [(d, x) for d, x in zip(defs, exprs) if x[0] == "c" and x[1] == 0]
         upd = [(d, x) for d, x in zip(defs, exprs) if x[0] != "c"]
         if len(init) == 1 and len(upd) == 1:
             d, x = upd[0]
             if x[0] == "bin" and x[1] == "Add" and (x[2] == r0 or x[3] == r0):
                 term = x[3] if x[2] == r0 else x[2]
-                fs = [term[2], term[3]] if term[0] == "bin" and term[1] == "Mul" else []
-                dl = [f for f in fs if f[0] == "idx" and is_line(f[1])]
-                cc = [f for f in fs if f[0] == "idx" and is_c(f[1])]
-                if len(dl) == 1 and len(cc) == 1:
-                    ip = syms.poly(dl[0][2])
+                ip, base, w = summand(term, syms.poly)
+                if ip is not None:
                     lv = _single_lv(ip)
-                    if lv is not None and ip == syms.lv(lv) and syms.poly(cc[0][2]) == ip:
+                    if lv is not None and ip == syms.lv(lv):
                         inf = syms.info[lv]
-                        lenp = frozenset([syms.poly(("len", dl[0][1]))])
+                        lenp = frozenset([syms.poly(("len", base))])
                         after = any(g[0] == "none" for g in paths.guards(b, d[0], eb)) or (_dom(b, sbb, d[0]) and not b.can_reach(d[0], sbb))
                         if inf["start"] == Poly.const(2) and inf["end"] == lenp and after:
                             oky = True
                         else:
                             why = "the sum runs `%s`%s" % (syms.describe(lv), "" if after else " and is not after the sweep")
                     else:
-                        why = "the delay element and the coefficient are indexed differently: %s" % show(term)[:100]
+                        why = "the summand is indexed by %s" % ip
                 else:
-                    why = "the summand is %s" % show(term)[:100]
+                    why = w
+    elif r0[0] == "call" and r0[1].endswith("Iterator::fold") and len(r0[2]) == 3:
+        # (2..len).fold(0.0, |y, i| y + d[i]*b[i])
+        rng, ini, clo = r0[2]
+        cb = p.bodies.get(clo[1][len("closure:"):]) if clo[0] == "agg" and clo[1].startswith("closure:") else None
+        if cb is not None and rng[0] == "agg" and rng[1].endswith("Range::Range") and ini[0] == "c" and ini[1] == 0:
+            rv = resolve_upvars(p, cb, ExprBuilder(cb).local(0))
+            acc = ("arg", 2, cb.local_name(2))
+            if rv[0] == "bin" and rv[1] == "Add" and (rv[2][0] == "arg" and rv[2][1] == 2 or rv[3][0] == "arg" and rv[3][1] == 2):
+                term = rv[3] if (rv[2][0] == "arg" and rv[2][1] == 2) else rv[2]
+
+                def ipoly(e):
+                    return Poly.atom(("I",)) if e[0] == "arg" and e[1] == 3 else None
+                ip, base, w = summand(term, ipoly)
+                fold_bb = [bb for bb, t in b.calls() if t["callee"]["k"] == "fndef" and cm.callee_name(t["callee"]).endswith("Iterator::fold")]
+                after = len(fold_bb) == 1 and any(g[0] == "none" for g in paths.guards(b, fold_bb[0], eb))
+                if ip is not None and syms.poly(rng[2][0]) == Poly.const(2) and syms.poly(rng[2][1]) == syms.poly(("len", base)) and after:
+                    oky = True
+                else:
+                    why = w or "the fold runs over %s%s" % (show(rng)[:60], "" if after else " and is not after the sweep")
+            else:
+                why = "the fold step is %s" % show(rv)[:80]
     if oky:
         ctx.ok(RULE, "y = sum_{i=2}^{len-1} d[i]*b[i], after the sweep", b.loc())
     else:
@@ -679,6 +718,30 @@ def r4_fir(ctx, p):
         ctx.ok(RULE, "every basic filter has nmcp delay elements (Stage::new -> MLSA::new(nmcp) -> Df2::new(nmcp) -> vec![0.0; nmcp])", nw.loc() if nw else None)
     else:
         ctx.fail(RULE, "vocoder::mlsa::fir::Df2::new", "delay line length", "the FIR delay lines are not built with one element per cepstral coefficient (Stage::new(stage, nmcp) -> MelLogSpectrumApproximation::new(nmcp) -> Df2::new(nmcp))", nw.loc() if nw else None)
+
+
+def _reads_between(b, eb, a, c, _unused, pred):
+    """is there a memory read matching `pred` strictly after statement a = (bb, idx) and before
+    statement c = (bb, idx), on blocks dominated by a's block that reach c's block"""
+    (abb, ai), (cbb, ci) = a, c
+    blocks = [bb for bb in range(len(b.blocks)) if not b.is_cleanup(bb) and _dom(b, abb, bb) and (bb == cbb or b.can_reach(bb, cbb))]
+    for bb in blocks:
+        for k, st in enumerate(b.blocks[bb]["stmts"]):
+            if st["k"] != "assign":
+                continue
+            if bb == abb and k <= ai:
+                continue
+            if bb == cbb and k >= ci:
+                continue
+            for op in _operands(st["rv"]):
+                if op.get("k") in ("copy", "move") and op["place"]["proj"]:
+                    try:
+                        ex = eb.at(bb, k).op(op)
+                    except Exception:
+                        continue
+                    if pred(ex):
+                        return True
+    return False
 
 
 def _operands(rv):
@@ -900,7 +963,10 @@ def r5_wiring(ctx, p):
     if len(lasts) == 1 and _is_frame_coef(lasts[0][1]):
         # after the sample loop
         if b is vs:
-            okl = _dom(vs, cbb, lasts[0][0]) and not vs.can_reach(lasts[0][0], cbb)
+            # plain loop: the store sits behind the exit edge of the sample loop the call is in
+            inner = [canon(g[1]) for g in paths.guards(vs, cbb, veb) if g[0] == "some"]
+            outer = [canon(g[1]) for g in lasts[0][3] if g[0] == "none"]
+            okl = vs.can_reach(cbb, lasts[0][0]) and not vs.can_reach(lasts[0][0], cbb) and any(x in outer for x in inner)
         else:
             clo_sites = [bb for bb, t in vs.calls() if any(x[0] == "agg" and x[1] == "closure:" + b.path for a in t["args"] for x in walk(veb.at(bb).op(a)))]
             okl = len(clo_sites) == 1 and _dom(vs, clo_sites[0], lasts[0][0])
